@@ -29,6 +29,10 @@ def log(*a):
 def run(cmd, cwd=None, env=None, timeout=None):
     e = dict(os.environ)
     e.setdefault("CARGO_NET_OFFLINE", "true")
+    # the build must land where bsx() looks for it, whatever the caller's environment says
+    for k in ("CARGO_TARGET_DIR", "CARGO_BUILD_TARGET_DIR", "CARGO_BUILD_TARGET", "RUSTFLAGS", "CARGO_ENCODED_RUSTFLAGS",
+              "CARGO_BUILD_RUSTFLAGS", "CARGO_PROFILE_DEV_DEBUG_ASSERTIONS", "CARGO_PROFILE_RELEASE_DEBUG_ASSERTIONS"):
+        e.pop(k, None)
     if env:
         e.update(env)
     p = subprocess.run(cmd, cwd=cwd, env=e, stdout=subprocess.PIPE, stderr=subprocess.STDOUT, timeout=timeout)
@@ -42,7 +46,8 @@ def build_harness():
     with open(os.path.join(HARNESS, ".buildlock"), "w") as lk:
         fcntl.flock(lk, fcntl.LOCK_EX)
         for prof in ("dev", "release"):
-            cmd = ["cargo", "build", "--offline", "--quiet"] + (["--release"] if prof == "release" else [])
+            cmd = ["cargo", "build", "--offline", "--quiet", "--target-dir", os.path.join(HARNESS, "target")] + \
+                  (["--release"] if prof == "release" else [])
             rc, out = run(cmd, cwd=HARNESS, timeout=1800)
             if rc != 0:
                 raise ToolError("harness does not build against /repo (%s profile):\n%s" % (prof, out[-3000:]))
